@@ -7,6 +7,7 @@ package main
 import (
 	"bufio"
 	"bytes"
+	"context"
 	"crypto/sha256"
 	"encoding/json"
 	"flag"
@@ -540,9 +541,23 @@ func writeReplay(f found, tree string) string {
 	if f.v.Class == sim.VHistory {
 		args = append(args, "-minbudget", "60")
 	}
-	cmd := exec.Command(filepath.Join(work, f.bin), args...)
-	cmd.Stderr = os.Stderr
-	err := cmd.Run()
+	// A candidate may send the library into work that never ends inside a
+	// dependency (no statement of the library executes, so the step budget
+	// does not see it): minimisation is bounded in wall-clock time, and the
+	// unminimised file is restored when the bound is hit.
+	runMin := func(orig []byte) error {
+		ctx, cancel := context.WithTimeout(context.Background(), 5*time.Minute)
+		defer cancel()
+		cmd := exec.CommandContext(ctx, filepath.Join(work, f.bin), args...)
+		cmd.Stderr = os.Stderr
+		err := cmd.Run()
+		if ctx.Err() != nil {
+			os.WriteFile(path, orig, 0o644)
+			return fmt.Errorf("stopped after 5 minutes")
+		}
+		return err
+	}
+	err := runMin(b)
 	if ee, ok := err.(*exec.ExitError); ok && ee.ExitCode() == 3 && f.nw > 0 {
 		// Not reproducible from a fresh process: the library kept state from
 		// earlier runs of the same worker. Record those runs as warm-up.
@@ -553,9 +568,7 @@ func writeReplay(f found, tree string) string {
 		rf.Notes = append(rf.Notes, "the violation needs the process history: the replay first re-executes the runs the worker had executed before")
 		b, _ := json.MarshalIndent(&rf, "", " ")
 		os.WriteFile(path, b, 0o644)
-		cmd = exec.Command(filepath.Join(work, f.bin), args...)
-		cmd.Stderr = os.Stderr
-		err = cmd.Run()
+		err = runMin(b)
 	}
 	if err != nil {
 		fmt.Fprintf(os.Stderr, "ctl: minimisation of %s did not complete (%v); the unminimised trace is kept\n", path, err)
@@ -747,7 +760,7 @@ func writeEvidence(cfg tierCfg, sums []summary, wall float64, nViol, raceRuns, r
 			"profile":                               cfg.profile,
 			"workers":                               runtime.NumCPU(),
 			"components_real":                       []string{"library (go/ast-instrumented copy of /repo's working tree)", "fmt", "encoding/json", "math/big", "bufio", "strconv"},
-			"components_stub":                       []string{"scheduler (one task runs at a time; raw-syscall baton in race builds, one-slot channel with GOMAXPROCS=1 otherwise)", "byte streams and their faults", "simulator-owned fmt.State", "database/sql driver hand-over (Decompose/hold/Compose)"},
+			"components_stub":                       []string{"scheduler (one task runs at a time; raw-syscall baton in race builds, one-slot channel with GOMAXPROCS=1 otherwise)", "byte streams and their faults", "simulator-owned fmt.State", "database/sql driver hand-over (Decompose/hold/Compose)", "stand-ins for hash/maphash and math/rand keyed by VERIF_HASHKEY and a monotonic logical clock with planned forward jumps for time.Now/Since/Until (only in trees that use them; the pinned tree uses none, so none was exercised in this run unless the focus section says otherwise)"},
 		},
 		"assumptions": []string{
 			"the inputs quantifier is only sampled by the seeded, boundary-biased generators; a clean batch is evidence, not proof",
